@@ -224,6 +224,9 @@ func readRuns(o *options) []runSpec {
 			if rs[i].Preempt == 0 {
 				rs[i].Preempt = o.preempt
 			}
+			if rs[i].Preempt == 0 {
+				rs[i].Preempt = -1
+			}
 			if rs[i].TimeoutS == 0 {
 				rs[i].TimeoutS = int(o.timeout.Seconds())
 			}
@@ -269,7 +272,7 @@ func (l *loaded) job(o *options, rs runSpec) *interp.Job {
 			if deny[p] {
 				return false
 			}
-			return strings.HasPrefix(p, modPath) || interpretStd[p] || extra[p]
+			return strings.HasPrefix(p, modPath) || interpretStd[p] || extra[p] || strings.HasPrefix(p, "vendor/golang.org/x/")
 		},
 		SolverCmd: strings.Fields(o.solver), TimeoutMS: o.solverTO, Params: rs.Params, MaxPreempt: rs.Preempt, Debug: o.debug,
 	}
